@@ -95,6 +95,37 @@ def match_variants(peaks, spec, mz_tol):
     return js
 
 
+def corr_lists(peaks, mpeaks, z):
+    """impl vs model peak lists.  Variants are about 1/|z| apart, so peaks are aligned by m/z; an aligned pair must
+    agree (m/z to 1e-9 relative when it carries >= 1e-9 of the signal, to 1e-6 relative below that — the centre of
+    a variant with a share of 1e-10 is a quotient of two numbers that small —, intensity to 1e-7 relative + 1e-13);
+    a peak present on one side only is tolerated only below 2e-10: the cut sits at 1e-10 and the property asks for
+    completeness from 2e-10 on.  Returns None or a description of the first disagreement."""
+    gap = Fraction(1, 5 * max(1, abs(z)))
+    cutoff = Fraction(2, 10 ** 10) * (1 + Fraction(1, 10 ** 6)) + Fraction(1, 10 ** 13)
+    i = j = 0
+    while i < len(peaks) or j < len(mpeaks):
+        a = peaks[i] if i < len(peaks) else None
+        b = mpeaks[j] if j < len(mpeaks) else None
+        if a is not None and b is not None and abs(a[0] - b[0]) < gap:
+            big = max(a[1], b[1]) >= Fraction(1, 10 ** 9)
+            if not close(a[0], b[0], rel=1e-9 if big else 1e-6):
+                return f"m/z {float(a[0]):.9f} vs model {float(b[0]):.9f} (intensity {float(b[1]):.3e})"
+            if not close(a[1], b[1], rel=1e-7, abs_=1e-13):
+                return f"intensity {float(a[1]):.12e} vs model {float(b[1]):.12e} at m/z {float(b[0]):.6f}"
+            i += 1
+            j += 1
+        elif b is None or (a is not None and a[0] < b[0]):
+            if a[1] >= cutoff:
+                return f"impl has a peak at m/z {float(a[0]):.6f} (intensity {float(a[1]):.3e}) the model does not return"
+            i += 1
+        else:
+            if b[1] >= cutoff:
+                return f"the model returns a peak at m/z {float(b[0]):.6f} (intensity {float(b[1]):.3e}) the implementation does not"
+            j += 1
+    return None
+
+
 def judge(case, il, dl, T):
     """returns list of (property, clause, detail)"""
     comp, req, z, carrier, form = case
@@ -103,6 +134,15 @@ def judge(case, il, dl, T):
         return [("BROKEN", "driver", dl[:100])]
     model_s, info, spec_s, margin_s = parts
     issues = []
+    # the default and the signal-fraction requests go through poisson_approximate_n_peaks_of, whose search returns
+    # early when (mass/1800)^i overflows a double (i > 170, or beyond ~1e300): C15 states its estimate only where
+    # that power is representable, and the exact model has no overflow — such cases are outside what is modelled
+    if req.split(":")[0] in ("guess", "none", "f") and info != "unspecified":
+        import math
+        steps = max(int(info.split(" ")[3]), int(info.split(" ")[2]) + 1)
+        lam = float(sum(T[s]["mono"] * n for s, n in comp)) / 1800.0
+        if steps > 170 or steps * math.log10(max(lam, 1.0)) > 300:
+            return [("SKIP", "unrepresentable", "")]
     ip = parse_pattern(il)
     if isinstance(ip, str):
         return [("C09", "total", f"isotopic_variants returned {il[:40]}")]
@@ -113,10 +153,10 @@ def judge(case, il, dl, T):
     # correspondence impl vs model (the model has the recorded defect D5 too)
     if isinstance(mp, str):
         issues.append(("CORR", "corr", f"model says {model_s[:40]}, impl returned {len(peaks)} peaks"))
-    elif not boundary:
-        if len(mp[1]) != len(peaks) or not all(close(a[0], b[0], rel=1e-9) and close(a[1], b[1], rel=1e-7, abs_=1e-15)
-                                               for a, b in zip(peaks, mp[1])):
-            issues.append(("CORR", "corr", f"impl {len(peaks)} peaks vs model {len(mp[1])} (or values differ)"))
+    else:
+        why = corr_lists(peaks, mp[1], z)
+        if why is not None:
+            issues.append(("CORR", "corr", f"impl {len(peaks)} peaks vs model {len(mp[1])}: {why}"))
     if info == "unspecified":
         return issues
     tv, mv, order, g = (int(x) for x in info.split(" "))
@@ -260,7 +300,7 @@ def run_c03_c09(r: Run, prop):
     for case, il, dl in zip(cases, impl, model):
         comp = case[0]
         if len(comp) == 1 and comp[0][1] == 1:
-            if any(p in ("C03", "C09") for p, _, _ in judge(case, il, dl, T)):
+            if any(p in ("C03", "C09") for p, _, _ in judge(case, il, dl, T)):  # ("SKIP" is neither)
                 single_bad.add(comp[0][0])
     r.coverage["elements_with_wrong_single_atom_pattern"] = sorted(single_bad)
     for case, line, il, dl in zip(cases, lines, impl, model):
@@ -273,6 +313,9 @@ def run_c03_c09(r: Run, prop):
         for p, clause, detail in judge(case, il, dl, T):
             if p == "BROKEN":
                 raise Broken(detail)
+            if p == "SKIP":
+                r.coverage["skipped_poisson_overflow"] = r.coverage.get("skipped_poisson_overflow", 0) + 1
+                continue
             kind = "impl_vs_spec"
             if p == "CORR":
                 p, kind = prop, "corr_broken"
